@@ -371,7 +371,12 @@ func (s *Sub[C]) exec(c C) {
 			if e := recover(); e != nil {
 				stack := string(debug.Stack())
 				site := PanicSite(stack)
-				r.fails = append(r.fails, failure{FP: "panic:" + site, Msg: fmt.Sprintf("panic: %v", e), Detail: trimStack(stack)})
+				fp := "panic:" + site
+				if site == "unknown" {
+					// no wharf function anywhere on the stack: the harness itself panicked
+					fp = "harness:panic-in-harness"
+				}
+				r.fails = append(r.fails, failure{FP: fp, Msg: fmt.Sprintf("panic: %v", e), Detail: trimStack(stack)})
 			}
 		}()
 		s.run(c, r)
@@ -912,7 +917,12 @@ func superviseWorker(bin, variant, tier string, i, n int, budget time.Duration) 
 		}
 		st := stderr.String()
 		site := crashSite(st)
-		res.violations = append(res.violations, violation{Sub: lastJ.Sub, FP: "crash:" + site, Msg: "process crashed: " + firstLine(crashLine(st)), Detail: tail(st, 3000), Case: lastJ.Case})
+		if site == "unknown" {
+			// no wharf function on the crashing goroutine's stack: the harness itself crashed
+			res.harness = append(res.harness, violation{Sub: lastJ.Sub, FP: "harness:crash-in-harness", Msg: "worker crashed outside wharf code: " + firstLine(crashLine(st)), Detail: tail(st, 3000), Case: lastJ.Case})
+		} else {
+			res.violations = append(res.violations, violation{Sub: lastJ.Sub, FP: "crash:" + site, Msg: "process crashed: " + firstLine(crashLine(st)), Detail: tail(st, 3000), Case: lastJ.Case})
+		}
 		// counters of the crashed attempt are lost for the cases before the crash;
 		// they are re-enumerated as skipped, so account for them here (only the
 		// cases since the previous restart point of this sub-check).
